@@ -4,11 +4,12 @@ C12 — sender side of acknowledged requests, client role.
 Property theorems only (helper lemmas: `Proofs/Client*.lean`).  Model:
 `Model/Client.lean` (code-shaped, tied to `service.Client` by the scripted-peer
 correspondence runs); specification: `Spec/Client.lean`.  The recorded
-deviations of the code (E5 ack-before-registration, E9, the A2 identifier
-wrap) are kept out of the `…_partial` statements by explicit hypotheses and
-proved as closed `…_counterexample`s on the model.  (The single ping slot of
-`sessions.Ackqueue` was one of them; it was repaired - the pings are a FIFO -
-and the ping theorems below are stated at full strength.)
+deviations of the code (E5 ack-before-registration, the A2 identifier wrap) are
+kept out of the `…_partial` statements by explicit hypotheses and proved as
+closed `…_counterexample`s on the model.  (The single ping slot of
+`sessions.Ackqueue` and E9 - one callback invocation per matching filter of a
+request - were two of them; both were repaired and the theorems that carried
+their hypotheses are stated at full strength.)
 -/
 import Mqtt.Proofs.ClientRefine
 
@@ -405,8 +406,6 @@ except that a delivered message fixes callback, topic and payload only, and
 history iff every event is inside the recorded exclusions:
 
 * no `.apiEarlyAck` (E5);
-* at every dispatch no callback is held under two different filters that both
-  match the delivered topic (`E9free`, E9);
 * filters and delivered topic names without empty levels and not beginning
   with `$` (`good`, B3), delivered names valid, QoS <= 2;
 * QoS 1/2 publishes, subscribes, unsubscribes carry a caller-supplied non-zero
@@ -504,18 +503,22 @@ theorem C12_refines_spec_pings :
        [.wrote .pingreq], [.complete 1 false], [.complete 5 false], [.complete 2 false], [.complete 4 false], []] :=
   ⟨by decide, (C12_refines_spec_partial demoP (by decide)).1, by decide⟩
 
-/-- E9 is needed: a request with the overlapping filters `a/+`, `a/b`; one delivered `a/b` invokes
-the callback once in the reference client, twice in the model.  Everything before the delivery is
-admitted. -/
-theorem C12_refines_spec_E9_counterexample :
-    Ok {} [.connect (.connack false 0), .api (.subscribe 1 [([97, 47, 43], 1), ([97, 47, 98], 1)] 5 9),
-      .peer (.suback 1 [1, 1])] = true ∧
-    ¬ RunMatch (specOuts {} [.connect (.connack false 0), .api (.subscribe 1 [([97, 47, 43], 1), ([97, 47, 98], 1)] 5 9),
-        .peer (.suback 1 [1, 1]), .peer (.publish { qos := 0, topic := [97, 47, 98], payload := [7] })])
-      (runOuts init [.connect (.connack false 0), .api (.subscribe 1 [([97, 47, 43], 1), ([97, 47, 98], 1)] 5 9),
-        .peer (.suback 1 [1, 1]), .peer (.publish { qos := 0, topic := [97, 47, 98], payload := [7] })]) := by
-  refine ⟨by decide, fun h => ?_⟩
-  exact absurd (runMatchB_of h) (by decide)
+/-- Overlapping filters within one request are admitted (there is no E9 hypothesis any more): a
+request with the filters `a/+`, `a/b` and a second request with `a/#`; a delivered `a/b` (QoS 0, and
+QoS 2 at its PUBREL) invokes each request's callback exactly once, in the model as in the reference
+client. -/
+def demoE9 : List Ev :=
+  [.connect (.connack false 0), .api (.subscribe 1 [([97, 47, 43], 1), ([97, 47, 98], 1)] 5 9),
+   .peer (.suback 1 [1, 1]), .api (.subscribe 2 [([97, 47, 35], 0)] 6 4), .peer (.suback 2 [0]),
+   .peer (.publish { qos := 0, topic := [97, 47, 98], payload := [7] }),
+   .peer (.publish { qos := 2, topic := [97, 47, 98], pktid := 100, payload := [8] }),
+   .peer (.pubrel 100)]
+
+theorem C12_refines_spec_overlapping_filters :
+    Ok {} demoE9 = true ∧ RunMatch (specOuts {} demoE9) (runOuts init demoE9) ∧
+    ((runOuts init demoE9).drop 5).map (fun o => ((deliveriesTo 9 o).length, (deliveriesTo 4 o).length)) =
+      [(1, 1), (0, 0), (1, 1)] :=
+  ⟨by decide, (C12_refines_spec_partial demoE9 (by decide)).1, by decide⟩
 
 /-- B3 (`good`) is needed: the filter `/a` receives `x/a` in the model, not in the reference client. -/
 theorem C12_refines_spec_B3_counterexample :
